@@ -51,6 +51,31 @@ def run(c):
         evfiles.append(evp)
         if r["round_trips"]:
             c.sample({"input": name, "round_trips": r["round_trips"]})
+    # ---- binders over definition GROUPS: whether a function type is printed with its parameter's name depends on where the
+    # parameter is used -- in some definitions only, in the body only, in an annotation, nowhere (every combination, two and three
+    # definitions, function types and functions, explicit and implicit)
+    texts = []
+    dchoice = ["a", "int", "(z : a) => z", "(z : int) => z"]
+    for head in ["(a : type) -> ", "(a : type) => ", "{a : type} -> ", "(a : type) -> (b : type) -> "]:
+        for d1 in dchoice:
+            for d2 in dchoice:
+                for body in ["x", "y", "a", "int"]:
+                    texts.append("%s(x = %s; y = %s; %s)" % (head, d1, d2, body))
+                    texts.append("%s(x : %s = 1; y = %s; %s)" % (head, "a" if d1 == "a" else "int", d2, body))
+                for d3 in dchoice[:2]:
+                    texts.append("%s(x = %s; y = %s; w = %s; y)" % (head, d1, d2, d3))
+    tp = os.path.join(d, "binder-groups.txt")
+    open(tp, "w").write("".join('<<"TEXT", %s>>\n' % json.dumps(json.dumps({"text": t})) for t in texts))
+    out, evp = os.path.join(d, "binder-groups.json"), os.path.join(d, "binder-groups.ndjson")
+    vf.gv(["roundtrip", "TEXT", tp, out, evp, 20], timeout=3000)
+    r = json.load(open(out))
+    c.cov["replayed_cases"] += r["round_trips"]
+    c.cov.setdefault("round_trips", {})["binder-groups"] = {k: r[k] for k in r if k != "first"}
+    for m in r["first"]:
+        c.violate("%s: `%s` is printed as `%s`" % (m["what"], m.get("text"), m.get("printed")),
+                  {"kind": "roundtrip", "what": m["what"][:80], "of": m.get("of"), "text": m.get("text"), "printed": m.get("printed"),
+                   "implicit_nd_pi": bool(m.get("implicit_nd_pi")), "ok_when_made_explicit": bool(m.get("ok_when_made_explicit"))})
+    evfiles.append(evp)
     allp = os.path.join(d, "all.ndjson")
     with open(allp, "w") as o:
         for p in evfiles:
